@@ -188,7 +188,7 @@ package engine
 //@ ensures [same-shared-schedule] result0 == sharedRPSSchedule && result1 == err
 
 //@ func (ah *runAwaitHandle) awaitRun
-//@ props C05
+//@ props C05 C03 C12
 //@ requires ah.toWait == ite(ah.providerErr != nil, 1, 0) + ite(ah.aggregatorErr != nil, 1, 0) + ite(ah.startRes != nil, 1, 0) + ite(ah.runRes != nil, 1, 0)
 //@ requires imp(ah.runRes != nil, !closed(ah.runRes)) && imp(ah.startRes != nil, ah.runRes != nil)
 //@ may_panic true
@@ -197,6 +197,9 @@ package engine
 //@ loop 0 invariant imp(ah.runRes != nil, !closed(ah.runRes))
 //@ loop 0 step [every-result-is-examined] calls(errutil.IsCtxError) - iter(calls(errutil.IsCtxError)) == 1 || result_of(<-ah.runRes, 0).Err == outOfAmmoErr
 //@ loop 0 step [real-failure-is-reported] imp(calls(errutil.IsCtxError) - iter(calls(errutil.IsCtxError)) == 1 && !result_of(errutil.IsCtxError, 0), calls(ah.onErrAwaited) - iter(calls(ah.onErrAwaited)) == 1)
+//@ loop 0 invariant [run-cancelled-only-when-all-finished] calls(ah.runCancel) == 0
+//@ loop 0 step [out-of-ammo-stops-only-the-start-of-instances] imp(ah.awaitedInstances == iter(ah.awaitedInstances) + 1 && result_of(<-ah.runRes, 0).Err == outOfAmmoErr && iter(ah.startRes) != nil, calls(ah.instanceStartCancel) - iter(calls(ah.instanceStartCancel)) == 1)
+//@ ensures [run-cancelled-only-when-all-finished] calls(ah.runCancel) == 0
 //@ ensures [all-awaited] ah.toWait <= 0 && ah.providerErr == nil && ah.aggregatorErr == nil && ah.startRes == nil && ah.runRes == nil
 //@ at call ah.onErrAwaited#0 assert [provider-cause] cause(arg(err)) == cause(err)
 //@ at call ah.onErrAwaited#1 assert [aggregator-cause] cause(arg(err)) == cause(err)
